@@ -1,24 +1,51 @@
-import PyGam.Drv.Common
+import PyGam.Drv.Loop
+import PyGam.Drv.C01
+import PyGam.Drv.C02
+import PyGam.Drv.C03
 import PyGam.Drv.C04
+import PyGam.Drv.C05
+import PyGam.Drv.C06
+import PyGam.Drv.C07
+import PyGam.Drv.C08
+import PyGam.Drv.C09
+import PyGam.Drv.C10
+import PyGam.Drv.C11
+import PyGam.Drv.C12
+import PyGam.Drv.C13
+import PyGam.Drv.C14
+import PyGam.Drv.C15
+import PyGam.Drv.C16
+import PyGam.Drv.C17
+import PyGam.Drv.C18
+import PyGam.Drv.C19
+import PyGam.Drv.C20
 /-!
 Line protocol driver: one operation per line on stdin, one canonical line on stdout.
 First token selects the property driver.  Unknown / malformed operations print `bad-op`.
 -/
 open PyGam.Drv
 
-def dispatch (line : String) : String :=
-  let toks := (line.trimAscii.toString.splitOn " ").filter (· ≠ "")
-  match toks with
+def dispatch : List String → String
+  | "C01" :: rest => (C01.handle rest).getD "bad-op"
+  | "C02" :: rest => (C02.handle rest).getD "bad-op"
+  | "C03" :: rest => (C03.handle rest).getD "bad-op"
   | "C04" :: rest => (C04.handle rest).getD "bad-op"
+  | "C05" :: rest => (C05.handle rest).getD "bad-op"
+  | "C06" :: rest => (C06.handle rest).getD "bad-op"
+  | "C07" :: rest => (C07.handle rest).getD "bad-op"
+  | "C08" :: rest => (C08.handle rest).getD "bad-op"
+  | "C09" :: rest => (C09.handle rest).getD "bad-op"
+  | "C10" :: rest => (C10.handle rest).getD "bad-op"
+  | "C11" :: rest => (C11.handle rest).getD "bad-op"
+  | "C12" :: rest => (C12.handle rest).getD "bad-op"
+  | "C13" :: rest => (C13.handle rest).getD "bad-op"
+  | "C14" :: rest => (C14.handle rest).getD "bad-op"
+  | "C15" :: rest => (C15.handle rest).getD "bad-op"
+  | "C16" :: rest => (C16.handle rest).getD "bad-op"
+  | "C17" :: rest => (C17.handle rest).getD "bad-op"
+  | "C18" :: rest => (C18.handle rest).getD "bad-op"
+  | "C19" :: rest => (C19.handle rest).getD "bad-op"
+  | "C20" :: rest => (C20.handle rest).getD "bad-op"
   | _ => "bad-op"
 
-partial def loop (h : IO.FS.Stream) (out : IO.FS.Stream) : IO Unit := do
-  let line ← h.getLine
-  if line.isEmpty then return ()
-  out.putStrLn (dispatch line)
-  loop h out
-
-def main : IO Unit := do
-  let out ← IO.getStdout
-  loop (← IO.getStdin) out
-  out.flush
+def main : IO Unit := runLoop dispatch
